@@ -136,3 +136,15 @@ Definition chk_p_h (p : list (hist Qc)) (which : option (list sel)) (expected : 
   res_eqb (fun a b => hist_eqb (nz a) (nz b)) (p_h VO Vzero Vadd Vmulz p which) expected.
 Definition chk_mkP (hs : list (hist Qc)) (expected : list (hist Qc)) : bool :=
   list_eqb hist_eqb (mkP VO hs) expected.
+
+(* ---- C01 ---- *)
+From Dyce Require Export Model.Arith.
+Definition cnt_eqb (a b : hist Qc) : bool := hist_eqb (nz a) (nz b).
+Definition pool_operand (dice : list (hist Qc)) : operand := OpH (sum_h VO Vzero Vadd (mkP VO dice)).
+Definition chk_hbin (o : bop) (l r : operand) (expected : res (hist Qc)) : nat :=
+  cres_code cnt_eqb (h_binop o l r) expected.
+Definition chk_hun (o : uop) (a : operand) (expected : res (hist Qc)) : nat :=
+  match a with
+  | OpH h => cres_code cnt_eqb (h_unop o h) expected
+  | OpS _ => 2%nat
+  end.
